@@ -148,7 +148,7 @@ class PlainMapping(collections.abc.Mapping):
         return len(self._items)
 
 
-MAPTYPES = ["dict", "defaultdict", "proxy", "mapping"]
+MAPTYPES = ["dict", "defaultdict", "proxy", "mapping", "uriref"]
 
 
 def as_mapping(pairs, maptype):
@@ -159,6 +159,11 @@ def as_mapping(pairs, maptype):
         return types.MappingProxyType(dict(pairs))       # read-only
     if maptype == "mapping":
         return PlainMapping(pairs)
+    if maptype == "uriref":
+        # URI prefixes held as rdflib.URIRef (a str subclass that does not compare equal to the plain string)
+        import rdflib
+
+        return {(rdflib.URIRef(k) if "/" in k or k.startswith(("u", "v", "w", "x", "y", "n", "m", "h")) else k): rdflib.URIRef(v) for k, v in pairs}
     return {k: v for k, v in pairs}
 
 
